@@ -338,6 +338,10 @@ func c15JudgePos(c *mon.Ctx, in *c15Pos) {
 		var s *bscript.Script
 		if c.Try("bscript.NewP2PKHFromAddress", func() { s, err = bscript.NewP2PKHFromAddress(want) }) {
 			checkScript("NewP2PKHFromAddress:"+net, s, err)
+			if s != nil && err == nil {
+				scr := s
+				c.Retain("script built by NewP2PKHFromAddress", func() []byte { return *scr })
+			}
 		}
 		tx := bt.NewTx()
 		if c.Try("bt.(*Tx).PayToAddress", func() { err = tx.PayToAddress(want, 1234) }) {
